@@ -29,11 +29,12 @@ worker() { # slot
   for j in "${jobs[@]}"; do
     if [ $((i % N)) -eq $k ]; then
       set -- $j
-      if git -C $repo apply "$2" 2>/dev/null; then
+      if git -C $repo apply "$2" 2>/dev/null || git -C $repo apply -3 "$2" 2>/dev/null; then
         VERIF_REPO=$repo VERIF_EVIDENCE_DIR=$scratch VERIF_REPLAY_DIR=$scratch $vcheck $3 $tier > $scratch.log 2>&1; rc=$?
-        git -C $repo checkout -q -- . ; git -C $repo clean -fdq
+        git -C $repo reset -q --hard; git -C $repo clean -fdq
         if [ $rc -eq 1 ]; then res="DETECTED $(grep -m1 'signature:' $scratch.log | cut -c1-160)"; else res="MISSED (rc=$rc): $(tail -1 $scratch.log | cut -c1-160)"; fi
       else
+        git -C $repo reset -q --hard; git -C $repo clean -fdq
         res="SKIPPED patch does not apply to HEAD"
       fi
       echo "$(date +%H:%M:%S) $tier $3 $1 :: $res" | tee -a /verif/mutants/RESULTS.txt
